@@ -64,47 +64,43 @@ Proof.
 Qed.
 Print Assumptions advisory_conflict_fails.
 
-(* findings intact, full strength: REFUTED.  Two detectors returning the SAME *Finding pointer: Run
-   overwrites f.Detectors through the pointer, so both output entries carry the second detector's
-   name and the first detector's finding is reported under the wrong name. *)
-Definition alias_adv : advisory := mkAdv (Some (0, 0)) 1 1 (Some (3, None)).
-Definition alias_finding : finding := mkFinding (Some alias_adv) 1 0.
-Definition alias_dets : list detector :=
-  [ mkDet 1 0 [(1, alias_finding)] false false; mkDet 2 0 [(1, alias_finding)] false false ].
-
-Theorem findings_intact_refuted :
-  exists px dets,
-    no_cancel dets = true /\ advisories_consistent (all_findings dets) = true /\
-    rr_findings (detector_run px dets false) <> expected_findings dets.
-Proof. exists [], alias_dets. vm_compute. repeat split; discriminate. Qed.
-Print Assumptions findings_intact_refuted.
-
-(* findings intact on D = no *Finding pointer shared by detectors of different names (in particular:
-   all detectors return freshly allocated findings): every finding appears exactly once per
-   occurrence, in order, tagged with the detector that returned it *)
-Theorem findings_intact_on_D : forall px dets,
-  no_cancel dets = true -> advisories_consistent (all_findings dets) = true -> no_cross_alias dets = true ->
+(* findings intact, at full strength (since the fix "detector.Run tags a copy of each finding"; before it
+   this was refuted by two detectors returning the same *Finding): for ALL detector lists - including
+   lists in which detectors share *Finding pointers - every finding a detector returns appears, once
+   per occurrence and in order, tagged with that detector's name *)
+Theorem findings_intact : forall px dets,
+  no_cancel dets = true -> advisories_consistent (all_findings dets) = true ->
   rr_findings (detector_run px dets false) = expected_findings dets
   /\ rr_err (detector_run px dets false) = None.
 Proof.
-  intros px dets H C D. rewrite (run_no_cancel px dets H), C. cbn [rr_findings rr_err].
-  split; [apply findings_on_D, D | reflexivity].
+  intros px dets H C. rewrite (run_no_cancel px dets H), C. cbn [rr_findings rr_err]. split; reflexivity.
 Qed.
-Print Assumptions findings_intact_on_D.
+Print Assumptions findings_intact.
 
-(* outside D the content of every finding is still intact (only the Detectors tag can be wrong) *)
+(* the reported entries carry exactly the content the detectors returned *)
 Theorem findings_content_intact : forall px dets,
   no_cancel dets = true -> advisories_consistent (all_findings dets) = true ->
   map t_finding (rr_findings (detector_run px dets false)) = all_findings dets.
 Proof.
-  intros px dets H C. rewrite (run_no_cancel px dets H), C. cbn [rr_findings]. apply findings_content.
+  intros px dets H C. rewrite (run_no_cancel px dets H), C. cbn [rr_findings]. apply expected_content.
 Qed.
 Print Assumptions findings_content_intact.
+
+(* Run does not mutate the detectors' own Finding values: it writes through none of the returned
+   pointers, whatever the detectors return and whether or not the context is cancelled; so every
+   such value keeps the Detectors field the detector gave it *)
+Theorem detector_findings_not_mutated : forall px dets ctx_cancelled,
+  rr_writes (detector_run px dets ctx_cancelled) = []
+  /\ forall p, tag_lookup p (rr_writes (detector_run px dets ctx_cancelled)) = [].
+Proof.
+  intros px dets c. rewrite run_writes_nothing. split; [reflexivity | intros p; reflexivity].
+Qed.
+Print Assumptions detector_findings_not_mutated.
 
 (* ---------------------------------------------------------------- the scan *)
 (* tail of Scanner.Scan: the detectors are handed the index of exactly the merged inventory; statuses
    of extractors and detectors are all reported; the scan fails iff the advisories are inconsistent,
-   and then reports no finding; otherwise (on D) every finding, tagged *)
+   and then reports no finding; otherwise every finding, tagged *)
 Theorem scan_reports : forall fs_pkgs sa_pkgs ext dets,
   no_cancel dets = true ->
   let s := scan_tail fs_pkgs sa_pkgs ext dets in
@@ -112,19 +108,19 @@ Theorem scan_reports : forall fs_pkgs sa_pkgs ext dets,
   /\ so_plugin_status s = ext ++ map status_from_err dets
   /\ so_failed s = negb (advisories_consistent (all_findings dets))
   /\ (so_failed s = true -> so_findings s = [])
-  /\ (so_failed s = false -> no_cross_alias dets = true -> so_findings s = expected_findings dets).
+  /\ (so_failed s = false -> so_findings s = expected_findings dets).
 Proof.
   intros fs_pkgs sa_pkgs ext dets H s. subst s. unfold scan_tail.
   rewrite (run_no_cancel _ dets H).
   destruct (advisories_consistent (all_findings dets)); cbn [rr_calls rr_findings rr_status rr_err so_calls so_findings so_plugin_status so_failed negb];
-    repeat split; auto; try discriminate. intros _ D. apply findings_on_D, D.
+    repeat split; auto; try discriminate.
 Qed.
 Print Assumptions scan_reports.
 
 (* what cancellation does (outside the property's quantifier; kept for the correspondence): the
    loop stops before the next detector and Run reports neither findings nor statuses *)
 Theorem cancelled_run_reports_nothing : forall px d ds,
-  detector_run px (d :: ds) true = mkRun [] [] [] (Some ErrCtx).
+  detector_run px (d :: ds) true = mkRun [] [] [] (Some ErrCtx) [].
 Proof. reflexivity. Qed.
 Print Assumptions cancelled_run_reports_nothing.
 
@@ -148,7 +144,7 @@ Definition ex_conflict : list detector :=
   [ mkDet 1 2 [(1, mkFinding (Some advA) 0 1)] false false; mkDet 3 1 [(3, mkFinding (Some advA') 2 2)] false false ].
 
 Example good_run_example :
-  no_cancel ex_good = true /\ advisories_consistent (all_findings ex_good) = true /\ no_cross_alias ex_good = true
+  no_cancel ex_good = true /\ advisories_consistent (all_findings ex_good) = true
   /\ map t_dets (rr_findings (detector_run [] ex_good false)) = [[1]; [1]; [3]]
   /\ map s_status (rr_status (detector_run [] ex_good false)) = [ST_SUCCEEDED; ST_FAILED; ST_SUCCEEDED].
 Proof. vm_compute. repeat split; reflexivity. Qed.
@@ -156,12 +152,16 @@ Proof. vm_compute. repeat split; reflexivity. Qed.
 Example conflict_example :
   no_cancel ex_conflict = true /\ advisories_consistent (all_findings ex_conflict) = false
   /\ detector_run [] ex_conflict false
-     = mkRun [(1, []); (3, [])] [] [mkStatus 1 2 ST_SUCCEEDED; mkStatus 3 1 ST_SUCCEEDED] (Some ErrAdvisory).
+     = mkRun [(1, []); (3, [])] [] [mkStatus 1 2 ST_SUCCEEDED; mkStatus 3 1 ST_SUCCEEDED] (Some ErrAdvisory) [].
 Proof. vm_compute. repeat split; reflexivity. Qed.
 
-(* the refutation witness as the implementation reports it *)
+(* the former refutation witness (KNOWN_FINDINGS.d/C20.json, status fixed): two detectors returning the
+   SAME *Finding pointer now get one correctly tagged entry each *)
+Definition alias_adv : advisory := mkAdv (Some (0, 0)) 1 1 (Some (3, None)).
+Definition alias_finding : finding := mkFinding (Some alias_adv) 1 0.
+Definition alias_dets : list detector :=
+  [ mkDet 1 0 [(1, alias_finding)] false false; mkDet 2 0 [(1, alias_finding)] false false ].
 Example alias_example :
-  map t_dets (rr_findings (detector_run [] alias_dets false)) = [[2]; [2]]
-  /\ map t_dets (expected_findings alias_dets) = [[1]; [2]]
-  /\ no_cross_alias alias_dets = false.
+  map t_dets (rr_findings (detector_run [] alias_dets false)) = [[1]; [2]]
+  /\ rr_findings (detector_run [] alias_dets false) = expected_findings alias_dets.
 Proof. vm_compute. repeat split; reflexivity. Qed.
